@@ -99,7 +99,7 @@ def _expected(case, r):
         ts = (sim_race.kernel.EPOCH + q["t_enter"]) * 1000.0
         cid = q["es_client_id"]
         for name in ("latency", "service_time", "processing_time"):
-            exp[(name, q["task"], q["task"] + "-op", "sim-op", cid)].append(ts)
+            exp[(name, q["task"], q["task"] + "-op", leaf.get("op_type", "sim-op"), cid)].append(ts)
         spec = leaf["requests"][(q["client"] * leaf.get("stride", 7) + q["ordinal"]) % len(leaf["requests"])]
         if spec.get("deps") and q["outcome"] == "ok":
             # one service_time record per sub-request, stamped with the sub-request's own start
@@ -111,6 +111,33 @@ def _expected(case, r):
         if leaf["mode"] == "iterations":
             w = leaf.get("warmup_iterations") or 0
             types[(q["task"], cid, round(ts))] = "warmup" if q["ordinal"] < w else "normal"
+    # time-based tasks: the warm-up period counts from the start of the task (docs/track.rst), also for a client that joins later because
+    # of ramp-up. The task started on a client at the latest when its first request was issued minus its ramp-up wait, and the type of
+    # a request is decided after the client's previous request has returned: a request whose predecessor returned a full warm-up
+    # period after that is a normal one. (The other direction would need the exact start and is left to C05's single-task runs.)
+    element_of = {}
+    for el in case["schedule"]:
+        members = el["parallel"] if "parallel" in el else [el]
+        for m in members:
+            element_of[m["name"]] = (el, members)
+    per_client = collections.defaultdict(list)
+    for q in r.requests:
+        if "t_exit" in q:
+            per_client[(q["task"], q["es_client_id"], q["client"])].append(q)  # (over-committed: one client id, several clients in a row)
+    for (task, cid, _), qs in per_client.items():
+        leaf = by_name[task]
+        if leaf["mode"] != "time" or leaf.get("warmup_time_period") is None:
+            continue
+        el, members = element_of[task]
+        total = sum(m["clients"] for m in members)
+        if leaf.get("ramp_up") and (el.get("clients") is not None or not 0 <= cid < total):
+            continue  # (over-committed elements: the position of a client within the element is not its id)
+        wait = leaf["ramp_up"] * cid / total if leaf.get("ramp_up") else 0.0
+        qs.sort(key=lambda q: q["t_enter"])
+        s_max = qs[0]["t_enter"] - wait
+        for prev, q in zip(qs, qs[1:]):
+            if prev["t_exit"] - s_max >= leaf["warmup_time_period"] + 1e-6:
+                types[(task, cid, round((sim_race.kernel.EPOCH + q["t_enter"]) * 1000.0))] = "normal"
     return exp, types
 
 
@@ -166,7 +193,7 @@ def run_case(case, obs):
             we = max(w[1] for w in q["wire"])
             req_service[(q["task"], q["es_client_id"], round((sim_race.kernel.EPOCH + q["t_enter"]) * 1000.0))] = (we - ws) * 1000.0
     for d in r.store.docs:
-        if d["name"] == "service_time" and d.get("operation-type") == "sim-op":
+        if d["name"] == "service_time" and d.get("operation-type") in ("sim-op", "sim-op-completing"):
             for delta in (0, -1, 1):
                 k = (d["task"], d["meta"].get("client_id"), d["@timestamp"] + delta)
                 if k in req_service:
